@@ -174,7 +174,7 @@ def main():
             proof = dict(ok=True, obligations=0, discharged=0, failed=[], theorems=[], checker_cmd="skipped (--no-proof)", wall_s=0)
             notes.append("proof step skipped by --no-proof (development run)")
         else:
-            proof = common.prove(prop, spec.MODULES)
+            proof = common.prove(prop, spec.MODULES, driver=getattr(spec, "DRIVER", None))
         if args.tier == "thorough" and not args.no_proof and proof["ok"]:
             ok, log, wall = common.leanchecker(spec.MODULES)
             notes.append(f"leanchecker on {spec.MODULES}: {'ok' if ok else 'FAILED'} in {wall:.0f}s")
@@ -287,6 +287,7 @@ def main():
         search_cases=searched,
         histogram=dict(sorted(hist.items())),
         proof_failures=proof["failed"][:20],
+        lean_sources_audited=proof.get("sources_audited", []),
         partial_clauses=list(getattr(spec, "PARTIAL", [])),
         known_findings_reproduced=sorted(known_hit),
         oracle_violations_total=len(violations),
